@@ -96,8 +96,11 @@ func Check(w *Workload, e *Expect, o, base *Outcome, faulty bool) []Violation {
 		add("missed-failure", "compile succeeded although "+what, "")
 	case expectFail && !o.OK:
 		named := false
-		for _, b := range append(append([]int(nil), e.Bad...), e.UncFiles...) {
-			if strings.Contains(o.Err, w.Files[b].Path) {
+		// Any file that carries a fault may legitimately be the one reported: with
+		// uncertain faults in the plan, a bad file can be reached through a file whose
+		// import section the model does not trust.
+		for _, ft := range w.Faults {
+			if strings.Contains(o.Err, w.Files[ft.File].Path) {
 				named = true
 			}
 		}
